@@ -3,7 +3,9 @@
    each of its write operations (hook H1), reopens the store and records what it holds: version,
    which of the two admissible roots (evaluated from the StateTree terms) the stored root equals,
    and the full substate listing.  Accepted iff the reopened store is in the pre-commit or the
-   post-commit state: substates, version and root all of the SAME state.                       *)
+   post-commit state: substates, version and root all of the SAME state, and the Merkle tree
+   stored for the recorded version is complete (every node reachable from its root is present
+   and its leaves are the hashes of the substates held).                                       *)
 EXTENDS StateTree, TraceIO
 VARIABLES l, ver
 PD == (1 :> <<65, 0>>) @@ (2 :> <<65, 1>>) @@ (3 :> <<193, 0>>) @@ (4 :> <<67, 255>>)
@@ -23,6 +25,9 @@ IsState(ev, d, v, which) ==
   /\ ObsLeaves(ev) = Leaves(d) /\ Len(ev.leaves) = Cardinality(Leaves(d))
   /\ ev.version = v
   /\ ev.rootIs \in {which, "both"}
+  \* the stored tree of the recorded version, walked from its root by the code's own reader
+  \* (list_substate_hashes_at_version), yields exactly the hashes of the substates held (TreeIntact)
+  /\ ev.treeOk = TRUE
 TInit == db = EmptyDb /\ ver = 0 /\ l = 1
 TReset == /\ l <= Len(Rec) /\ Rec[l].a = "reset" /\ db' = EmptyDb /\ ver' = 0 /\ l' = l + 1
 TCrash == /\ l <= Len(Rec) /\ Rec[l].a = "crash"
